@@ -622,6 +622,18 @@ class _Run:
         self.sched.ev("ret", self.i, k, ser, out[0])
         if out[0] == "unknown" or out[0] == "comm":
             raise S.HarnessError("dispenser unreachable: %r" % (out,))
+        if ser == "marshal":
+            # marshal has no auto-proxy hook: whatever the registry says, the object travels by value (and the copy that is
+            # made for the wire must leave the object itself, and its registration, as they were: later steps show)
+            if rp is not None:
+                rp._pyroRelease()
+            if out != ("value", xk[1]):
+                self.viol("returned-object-not-by-value", "marshal", "%s returned to a marshal client must travel by value; the client got %s"
+                          % (self.name(xk), self.describe(out)))
+            ctx.probe("return_marshal_by_value")
+            if ids:
+                ctx.probe("registered_object_returned_by_value_marshal")
+            return
         if not ids:
             if out != ("value", xk[1]):
                 if rp is not None:
@@ -986,7 +998,7 @@ class RegistryWorld(World):
               "weak_collected", "weak_collected_unknown", "duplicate_refused", "reserved_refused", "forced", "class_registered",
               "generated_id", "registered_listing", "serpent", "json", "msgpack", "multiplex", "thread",
               "shape_len0", "shape_bool0", "shape_state", "par_make", "par_overlap", "par_gc_weak", "strong_survives_gc",
-              "shape_inst", "shape_noweak", "shape_eq", "registered_in_two_daemons", "second_daemon_closed", "return_proxy_two_daemons", "register_failed_frozen", "register_failed_noweak", "tracked_weak_collected"]
+              "shape_inst", "shape_noweak", "shape_eq", "shape_vars", "return_marshal_by_value", "registered_object_returned_by_value_marshal", "registered_in_two_daemons", "second_daemon_closed", "return_proxy_two_daemons", "register_failed_frozen", "register_failed_noweak", "tracked_weak_collected"]
     RULE = ("plan = (server type, generator tier core|extended, 3-10 steps (thorough: -16) of register / unregister / uriFor / "
             "proxyFor / call / return-object / gc / registered over 3 pool objects + 2 classes + ids id0..id2, generated, "
             "colliding ('the current or last id of object k'), reserved; force only in the extended tier; weak for objects; "
@@ -1072,7 +1084,7 @@ class RegistryWorld(World):
                 return {"op": "unreg", "by": "obj", "x": self._x(rng, 0.15, 0.06)}
             return {"op": "unreg", "by": "id", "id": self._idref(rng)}
         if r < 0.64:
-            return {"op": "ret", "k": rng.randrange(3), "ser": rng.choice(RET_SERS)}
+            return {"op": "ret", "k": rng.randrange(3), "ser": rng.choice(RET_SERS + RET_SERS + ["marshal"])}
         if r < 0.76:
             return {"op": "call", "id": self._idref(rng), "ser": rng.choice(SERIALIZERS)}
         if r < 0.84:
@@ -1232,7 +1244,7 @@ class RegistryWorld(World):
             plan["focus"] = "stale-unregister-weak-holder"
         shapes = ["plain", "plain", "plain"]
         if rng.random() < 0.5:
-            shapes = [rng.choice(["plain", "plain", "len0", "bool0", "state", "frozen", "noweak", "eq"]) for _ in range(3)]
+            shapes = [rng.choice(["plain", "plain", "len0", "bool0", "state", "frozen", "noweak", "eq", "vars", "vars"]) for _ in range(3)]
             if rng.random() < 0.2:
                 shapes = ["eq"] * 3       # value-style objects: distinct objects that compare equal to each other
         if "focus" not in plan:
